@@ -81,11 +81,27 @@ States == UNION {[P -> {1, 2}] : P \in SUBSET SPaths}
 OrS(a, b) == [p \in DOMAIN a \cup DOMAIN b |-> IF p \in DOMAIN b THEN b[p] ELSE a[p]]      \* later wins
 SubS(a, b) == [p \in DOMAIN a \ DOMAIN b |-> a[p]]
 
+\* split / filter with a sequence of filters: by variable type ("P" = value 1, "Q" = value 2) or by path ("px": the path
+\* contains key x, "pb": contains key b); every entry goes to the first filter that matches it, the rest to the remainder
+SFilters == {"P", "Q", "px", "pb"}
+SMatch(f, p, v) == CASE f = "P" -> v = 1 [] f = "Q" -> v = 2
+                     [] f = "px" -> \E i \in 1..Len(p) : p[i] = "x"
+                     [] f = "pb" -> \E i \in 1..Len(p) : p[i] = "b"
+RECURSIVE FirstMatch(_, _, _, _)
+FirstMatch(fs, p, v, i) == IF i > Len(fs) THEN Len(fs) + 1 ELSE IF SMatch(fs[i], p, v) THEN i ELSE FirstMatch(fs, p, v, i + 1)
+SplitGroups(a, fs) == [g \in 1..(Len(fs) + 1) |-> {p \in DOMAIN a : FirstMatch(fs, p, a[p], 1) = g}]
+SFilterSeqs == {<<f>> : f \in SFilters} \cup {<<f, g>> : f \in SFilters, g \in SFilters} \cup {<<f, g, k>> : f \in {"px", "pb"}, g \in {"P", "Q"}, k \in SFilters}
+SplitCases == {[a |-> a, fs |-> fs] : a \in States, fs \in SFilterSeqs}
+SplitLaws == Mode = "split" =>
+  LET G == SplitGroups(case.a, case.fs) IN
+    /\ UNION {G[g] : g \in DOMAIN G} = DOMAIN case.a
+    /\ \A g, k \in DOMAIN G : g # k => G[g] \cap G[k] = {}
+
 (***************************************************************************)
 TreeCases == {[x |-> x, keep |-> k, ld |-> ld] : x \in {y \in Trees(Depth) : IsDict(y)}, k \in BOOLEAN, ld \in 0..2}
 StateCases == {[a |-> a, b |-> b] : a \in States, b \in States}
 State3Cases == {[a |-> a, b |-> b, c |-> c] : a \in States, b \in States, c \in States}
-Init == case \in (CASE Mode = "tree" -> TreeCases [] Mode = "state" -> StateCases [] OTHER -> State3Cases)
+Init == case \in (CASE Mode = "tree" -> TreeCases [] Mode = "state" -> StateCases [] Mode = "split" -> SplitCases [] OTHER -> State3Cases)
 Next == UNCHANGED case
 
 \* with keep_empty_nodes the round trip is exact; without it, exact up to removal of empty sub-dicts
@@ -117,6 +133,9 @@ Export ==
   THEN PrintT(<<"EXPORT", ToJson([x |-> ToJ(case.x), keep |-> case.keep, ld |-> case.ld,
                                   flat |-> {<<e[1], ToJ(e[2])>> : e \in Flatten(case.x, <<>>, case.keep, case.ld)},
                                   back |-> ToJ(IF case.keep THEN case.x ELSE PruneD(case.x, 0, case.ld))])>>)
+  ELSE IF Mode = "split"
+  THEN PrintT(<<"EXPORT", ToJson([a |-> {<<p, case.a[p]>> : p \in DOMAIN case.a}, fs |-> case.fs,
+                                  groups |-> SplitGroups(case.a, case.fs)])>>)
   ELSE IF Mode = "state3"
   THEN PrintT(<<"EXPORT", ToJson([a |-> {<<p, case.a[p]>> : p \in DOMAIN case.a}, b |-> {<<p, case.b[p]>> : p \in DOMAIN case.b},
                                   c |-> {<<p, case.c[p]>> : p \in DOMAIN case.c},
